@@ -19,6 +19,18 @@ from pyiron_workflow.channels import NOT_DATA, NotData
 from pyiron_workflow.nodes.static_io import StaticNode
 
 
+
+def _with_use_cache(node: StaticNode, use_cache: bool) -> StaticNode:
+    """
+    The transformer classes are registered by name, so the class a factory hands back
+    may have been made by an earlier call with the other `use_cache`; what the caller
+    asked for is recorded on the instance.
+    """
+    if node.use_cache != use_cache:
+        node.use_cache = use_cache
+    return node
+
+
 class Transformer(StaticNode, ABC):
     """
     Transformers are a special case of :class:`StaticNode` nodes that turn many inputs
@@ -141,7 +153,7 @@ def inputs_to_list(n: int, /, *node_args, use_cache: bool = True, **node_kwargs)
     """
     cls = inputs_to_list_factory(n, use_cache)
     cls.preview_io()
-    return cls(*node_args, **node_kwargs)
+    return _with_use_cache(cls(*node_args, **node_kwargs), use_cache)
 
 
 @classfactory
@@ -178,7 +190,7 @@ def list_to_outputs(
 
     cls = list_to_outputs_factory(n, use_cache)
     cls.preview_io()
-    return cls(*node_args, **node_kwargs)
+    return _with_use_cache(cls(*node_args, **node_kwargs), use_cache)
 
 
 class InputsToDict(FromManyInputs, ABC):
@@ -310,7 +322,7 @@ def inputs_to_dict(
     """
     cls = inputs_to_dict_factory(input_specification, class_name_suffix, use_cache)
     cls.preview_io()
-    return cls(*node_args, **node_kwargs)
+    return _with_use_cache(cls(*node_args, **node_kwargs), use_cache)
 
 
 class InputsToDataframe(_HasLength, FromManyInputs, ABC):
@@ -375,7 +387,7 @@ def inputs_to_dataframe(n: int, use_cache: bool = True, *node_args, **node_kwarg
     """
     cls = inputs_to_dataframe_factory(n, use_cache)
     cls.preview_io()
-    return cls(*node_args, **node_kwargs)
+    return _with_use_cache(cls(*node_args, **node_kwargs), use_cache)
 
 
 class DataclassNode(FromManyInputs, ABC):
@@ -576,6 +588,6 @@ def dataclass_node(dataclass: type, use_cache: bool = True, *node_args, **node_k
         >>> f(necessary="input as a node kwarg")
         Foo.dataclass(necessary='input as a node kwarg', bar='bar', answer=42, complex_=[1, 2, 3])
     """
-    cls = dataclass_node_factory(dataclass)
+    cls = dataclass_node_factory(dataclass, use_cache)
     cls.preview_io()
-    return cls(*node_args, **node_kwargs)
+    return _with_use_cache(cls(*node_args, **node_kwargs), use_cache)
